@@ -450,7 +450,9 @@ func (fc *fileCtx) rewriteSelector(c *astutil.Cursor, n *ast.SelectorExpr) {
 		}
 	case "sync":
 		switch name {
-		case "Mutex", "RWMutex":
+		case "Mutex", "RWMutex", "Cond", "NewCond":
+			// (Cond: a broadcast wakes its waiters one at a time, in an order the
+			// controller chooses - with sync.Cond they race for the lock)
 			c.Replace(sel("vrt", name))
 			fc.needVrt, fc.changed = true, true
 			st.Mutexes++
